@@ -1,2 +1,203 @@
-//! Harnesses for property C25 (see /verif/properties.jsonl).
+//! Harnesses for property C25 (see /verif/properties.jsonl): tampered NTS packets are never
+//! accepted as authentic (under the ideal-AEAD model of common.rs).
+//!
+//! A valid NTS request (public constructor `NtpPacket::nts_poll_message`) and a valid NTS
+//! response (unique id authenticated, one fresh cookie encrypted) are produced by the REAL
+//! serializer with `ModelCipher`; one byte at a symbolic position is XORed with a symbolic
+//! non-zero mask; the result is decoded by the REAL decoder with the same `ModelCipher`.
+//! The layout (RFC 8915 §5.6: type, length, nonce length, ciphertext length, nonce, ciphertext)
+//! is computed here from the field sizes, not taken from the code:
+//!   region A = header, earlier fields, nonce, ciphertext  => no authenticated/encrypted field
+//!              and no cookie in whatever the decoder returns,
+//!   region B = the authenticator's own type/length/nonce-length/ciphertext-length words
+//!              => nothing but the original content (or nothing) is reported authenticated,
+//!   region C = bytes after the authenticator (here: a 4-byte trailer/MAC) => the packet is still
+//!              accepted and the authenticated/encrypted lists equal the original's.
+use crate::common::*;
 use crate::stubs;
+use ntp_proto::verif::packet as ph;
+use ntp_proto::{NoCipher, NtpPacket, PollInterval};
+use ph::Ef;
+use std::borrow::Cow;
+
+const UID: usize = 32;
+const COOKIE: usize = 16;
+const B: usize = 152;
+
+#[derive(Clone, Copy)]
+struct Layout {
+    /// start of the authenticator field
+    nts: usize,
+    nonce: usize,
+    ct: usize,
+    /// end of the ciphertext = end of the authenticator (no padding: both are multiples of 4)
+    end: usize,
+    /// total image length (end + trailer)
+    total: usize,
+}
+
+const REQ: Layout = {
+    // header, unique id field (4+32), cookie field (4+16), authenticator: 4 + 4 + nonce 16 + (tag 16)
+    let nts = 48 + 4 + UID + 4 + COOKIE;
+    Layout { nts, nonce: nts + 8, ct: nts + 8 + NONCE_LEN, end: nts + 8 + NONCE_LEN + TAG_LEN, total: nts + 8 + NONCE_LEN + TAG_LEN + 4 }
+};
+const RESP: Layout = {
+    // header, unique id field (4+32), authenticator: 4 + 4 + nonce 16 + (cookie field 4+16, tag 16)
+    let nts = 48 + 4 + UID;
+    let ct_len = 4 + COOKIE + TAG_LEN;
+    Layout { nts, nonce: nts + 8, ct: nts + 8 + NONCE_LEN, end: nts + 8 + NONCE_LEN + ct_len, total: nts + 8 + NONCE_LEN + ct_len + 4 }
+};
+
+/// The valid request, encoded by the real serializer, plus 4 arbitrary trailer bytes.
+fn build_request(cookie: &[u8; COOKIE], trailer: [u8; 4]) -> [u8; B] {
+    let mut out = [0u8; B];
+    let (p, _id) = NtpPacket::nts_poll_message(cookie, 1, PollInterval::default());
+    let n = encode(&p, &ModelCipher::new(0), &mut out);
+    assert!(matches!(n, Ok(x) if x == REQ.end), "request has the RFC 8915 layout size");
+    out[REQ.end..REQ.end + 4].copy_from_slice(&trailer);
+    // the authenticator as the RFC lays it out (independent check of the encoder)
+    assert!(get16(&out, REQ.nts) == T_NTS, "authenticator type");
+    assert!(get16(&out, REQ.nts + 2) as usize == REQ.end - REQ.nts, "authenticator length");
+    assert!(get16(&out, REQ.nts + 4) as usize == NONCE_LEN, "nonce length word");
+    assert!(get16(&out, REQ.nts + 6) as usize == TAG_LEN, "ciphertext length word");
+    out
+}
+
+/// The valid response: header bytes arbitrary (mode 4, version 4), unique id authenticated, one
+/// new cookie encrypted.
+fn build_response(hdr: &[u8; 48], uid: &[u8; UID], cookie: &[u8; COOKIE], trailer: [u8; 4]) -> [u8; B] {
+    let mut out = [0u8; B];
+    let header = match NtpPacket::deserialize(&hdr[..], &NoCipher) {
+        Ok((p, _)) => p.header(),
+        Err(_) => {
+            assert!(false, "48-byte v4 header decodes");
+            unreachable!()
+        }
+    };
+    let p = ph::packet_from_parts(
+        header,
+        vec![Ef::UniqueIdentifier(Cow::Owned(uid.to_vec()))],
+        vec![Ef::NtsCookie(Cow::Owned(cookie.to_vec()))],
+        vec![],
+    );
+    let n = encode(&p, &ModelCipher::new(1), &mut out);
+    assert!(matches!(n, Ok(x) if x == RESP.end), "response has the RFC 8915 layout size");
+    out[RESP.end..RESP.end + 4].copy_from_slice(&trailer);
+    assert!(get16(&out, RESP.nts) == T_NTS, "authenticator type");
+    assert!(get16(&out, RESP.nts + 2) as usize == RESP.end - RESP.nts, "authenticator length");
+    assert!(get16(&out, RESP.nts + 4) as usize == NONCE_LEN, "nonce length word");
+    assert!(get16(&out, RESP.nts + 6) as usize == 4 + COOKIE + TAG_LEN, "ciphertext length word");
+    out
+}
+
+fn lists_empty(p: &NtpPacket<'_>) -> bool {
+    ph::packet_authenticated(p).is_empty() && ph::packet_encrypted(p).is_empty() && p.new_cookies().count() == 0
+}
+
+/// Tamper one byte in [lo, hi) and compare with the untampered decode.
+/// Returns 0 = rejected, 1 = decrypt error, 2 = accepted (for the per-region cover goals).
+fn tamper(orig: &[u8; B], l: Layout, key: u8, lo: usize, hi: usize, n_auth: usize, n_enc: usize) -> u8 {
+    let pos: usize = kani::any();
+    let mask: u8 = kani::any();
+    kani::assume(pos >= lo && pos < hi && mask != 0);
+    let cipher = ModelCipher::new(key);
+
+    // untampered: accepted, everything before the authenticator authenticated
+    let r0 = decode(&orig[..l.total], &cipher);
+    let p0 = match &r0 {
+        Outcome::Accepted(p, _) => p,
+        _ => {
+            assert!(false, "the untampered packet is accepted");
+            return 0;
+        }
+    };
+    assert!(ph::packet_authenticated(p0).len() == n_auth, "original: authenticated fields");
+    assert!(ph::packet_encrypted(p0).len() == n_enc, "original: encrypted fields");
+    assert!(ph::packet_untrusted(p0).is_empty(), "original: nothing unauthenticated");
+
+    let mut t = *orig;
+    t[pos] ^= mask;
+    let r1 = decode(&t[..l.total], &cipher);
+
+    let in_a = pos < l.nts || (pos >= l.nonce && pos < l.end);
+    let in_c = pos >= l.end;
+    match &r1 {
+        Outcome::Rejected => {
+            assert!(!in_c, "C: bytes after the authenticator do not invalidate the packet");
+        }
+        Outcome::DecryptFailed(p) => {
+            assert!(lists_empty(p), "failed authentication reports nothing as authentic");
+            assert!(!in_c, "C: bytes after the authenticator do not break authentication");
+        }
+        Outcome::Accepted(p, cookie) => {
+            assert!(!*cookie, "client keys never yield a server cookie");
+            if in_a {
+                assert!(lists_empty(p), "A: tampering inside the authenticated region is never authentic");
+            } else {
+                let same = ph::packet_authenticated(p) == ph::packet_authenticated(p0)
+                    && ph::packet_encrypted(p) == ph::packet_encrypted(p0);
+                if in_c {
+                    assert!(same, "C: lists equal the original's");
+                } else {
+                    assert!(same || lists_empty(p), "B: no different content appears authentic");
+                }
+            }
+        }
+    }
+    match r1 {
+        Outcome::Rejected => 0,
+        Outcome::DecryptFailed(_) => 1,
+        Outcome::Accepted(..) => 2,
+    }
+}
+
+fn request(lo: usize, hi: usize) -> u8 {
+    stubs::symbolic_rng();
+    symbolic_model_randomness();
+    let cookie: [u8; COOKIE] = kani::any();
+    let trailer: [u8; 4] = kani::any();
+    let orig = build_request(&cookie, trailer);
+    tamper(&orig, REQ, 0, lo, hi, 2, 0)
+}
+
+fn response(lo: usize, hi: usize) -> u8 {
+    symbolic_model_randomness();
+    let mut hdr: [u8; 48] = kani::any();
+    let uid: [u8; UID] = kani::any();
+    let cookie: [u8; COOKIE] = kani::any();
+    let trailer: [u8; 4] = kani::any();
+    hdr[0] = (hdr[0] & 0xC0) | (4 << 3) | 4;
+    let orig = build_response(&hdr, &uid, &cookie, trailer);
+    tamper(&orig, RESP, 1, lo, hi, 1, 1)
+}
+
+macro_rules! tamper_harness {
+    ($name:ident, $f:ident, $lo:expr, $hi:expr, [$($code:expr => $msg:expr),*]) => {
+        harness! {
+            #[kani::unwind(200)]
+            fn $name() {
+                let code = $f($lo, $hi);
+                $( kani::cover!(code == $code, $msg); )*
+            }
+        }
+    };
+}
+const REJ: u8 = 0;
+const DEC: u8 = 1;
+const ACC: u8 = 2;
+// request: 48 header | 36 uid | 20 cookie | authenticator 8+16+16 | 4 trailer
+tamper_harness!(c25_req_header, request, 0, 48, [DEC => "detected by the AEAD", REJ => "framing broken (version bits)"]);
+tamper_harness!(c25_req_uid_hdr, request, 48, 52, [DEC => "detected by the AEAD", REJ => "framing broken"]);
+tamper_harness!(c25_req_uid_body, request, 52, 84, [DEC => "detected by the AEAD"]);
+tamper_harness!(c25_req_cookie_hdr, request, 84, 88, [DEC => "detected by the AEAD", REJ => "framing broken"]);
+tamper_harness!(c25_req_cookie_body, request, 88, 104, [DEC => "detected by the AEAD"]);
+tamper_harness!(c25_req_auth_words, request, 104, 112, [DEC => "detected by the AEAD", REJ => "framing broken", ACC => "no longer an NTS field: accepted without any authenticated content"]);
+tamper_harness!(c25_req_auth_body, request, 112, 144, [DEC => "detected by the AEAD"]);
+tamper_harness!(c25_req_trailer, request, 144, 148, [ACC => "trailer change tolerated, same authenticated content"]);
+// response: 48 header | 36 uid | authenticator 8+16+(20+16) | 4 trailer
+tamper_harness!(c25_resp_header, response, 0, 48, [DEC => "detected by the AEAD", REJ => "framing broken (version bits)"]);
+tamper_harness!(c25_resp_uid_hdr, response, 48, 52, [DEC => "detected by the AEAD", REJ => "framing broken"]);
+tamper_harness!(c25_resp_uid_body, response, 52, 84, [DEC => "detected by the AEAD"]);
+tamper_harness!(c25_resp_auth_words, response, 84, 92, [DEC => "detected by the AEAD", REJ => "framing broken", ACC => "no longer an NTS field: accepted without any authenticated content"]);
+tamper_harness!(c25_resp_auth_body, response, 92, 144, [DEC => "detected by the AEAD"]);
+tamper_harness!(c25_resp_trailer, response, 144, 148, [ACC => "trailer change tolerated, same authenticated content"]);
